@@ -24,6 +24,12 @@ def run_batch(ctx, n, with_model=True):
                                                 max_groups=4))
         text = gen.render(prog)
         envs = [gen.gen_env(prog, rng) for _ in range(3)]
+        if prog.salt is None or prog.salt.value == "":
+            e = dict(envs[0])
+            for sp in prog.splitters:
+                if sp not in prog.cond_fields():
+                    e[sp] = ""                      # every splitter prints as the empty string: the key is ""
+            envs.append(e)
         base_cases.append({"prog": prog, "text": text, "envs": envs})
     progcases.run_cases(ctx, base_cases, check_model=with_model, want_stages=False)
     for c in base_cases:
